@@ -968,6 +968,7 @@ def call_method(h: Any, recv: AV, name: str, args: List[AV], kwargs: Dict[str, A
             if m is not None:
                 h.match_text[t.id] = m.group()
             return t
+        ctx.log.append(("compiled-call", name, recv, tuple(args), i.site(node)))
         subj0 = args[0] if args else None
         ks0 = h.json_kind(subj0) if subj0 is not None else None
         if (ks0 is not None and ks0 != "str") or isinstance(subj0, (Inst, IntV, PyList, PyTuple, PyDict, EnumV)):
